@@ -94,7 +94,9 @@ def bfsCmd (st : BState) : List (List Char) → Option (BState × List (List Cha
     | "bfs.map", [] =>
         let ps := sortStrings (st.w.infos.map (·.1))
         some (st, ps.flatMap (fun p => p :: showInfoOpt ((st.w.infos.lookup p).join)))
-    | "bfs.reload", [] => some (st, [s2l "ok"])
+    | "bfs.reload", [] =>
+        -- MarshalJSON, process restart, UnmarshalJSON into a fresh BackupFS over the same filesystems
+        some ({ st with w := { st.w with infos := reloadInfos st.w.infos } }, [s2l "ok"])
     | "bfs.trace", [mode] =>
         -- "mut": mutating events only; "all": every event
         let evs := st.w.trace.reverse
